@@ -5,10 +5,9 @@
    against the real code. *)
 EXTENDS MC_UdsLayout, Json, IOUtils, SequencesExt
 
-ReqOut == {[kind |-> x.kind, abs |-> x.abs, f |-> x.f, range |-> ReqRange(x.kind, x.f),
-            expect |-> ExpectReq(x.kind, x.f)] : x \in ReqCases}
-RespOut == {[kind |-> x.kind, abs |-> x.abs, f |-> x.f, mut |-> x.mut, b |-> x.b] :
-              x \in {y \in RespCases : y.mut = "none"}}
+ReqOut == {[kind |-> x.kind, abs |-> x.abs, f |-> x.f, expect |-> ExpectReq(x.kind, x.f)] :
+             x \in ReqAbsCasesOf(ReqKinds)}
+RespOut == RespAbsCasesOf(RespKinds)
 ASSUME JsonSerialize(IOEnv.CASES_OUT,
          [req_layout |-> ReqLayout, resp_layout |-> RespLayout, variants |-> ReqVariant,
           req_cases |-> SetToSeq(ReqOut), resp_cases |-> SetToSeq(RespOut)])
